@@ -149,6 +149,7 @@ def do_upload(rig, x, D, tag, decl):
     rig.server.store[(index, sub)] = data
     style = x["style"]
     rig.server.upload_style = lambda i, s, d: style
+    rig.server.ul_chunks = x.get("ul_chunks")       # a server that fills its segments with fewer than 7 bytes
     route = x["route"]
     want = data
     if route in ("upload", "var_data"):
@@ -382,6 +383,14 @@ def enum_cases():
                                             "style": style, "route": "upload"}]}
             yield {"od": od, "xfers": [{"op": "ul", "index": 0x2002, "sub": 0, "data": data,
                                         "style": style, "route": "var_data", "toplevel": True}]}
+            if style.startswith("seg") and n > 1:
+                # a conformant server may put fewer than 7 bytes into any segment
+                for chunks in ([1], [6], [3, 7], [7, 2, 5], [4, 1, 1, 7]):
+                    yield {"od": od, "xfers": [{"op": "ul", "index": 0x2000, "sub": 0, "data": data, "style": style,
+                                                "route": "upload", "ul_chunks": chunks}]}
+                    yield {"od": od, "xfers": [{"op": "ul", "index": 0x2000, "sub": 0, "data": data, "style": style,
+                                                "route": "open", "buffering": (0, 3, 1024)[len(chunks) % 3],
+                                                "reads": None, "ul_chunks": chunks}]}
             j = 0
             for buffering in BUFFERINGS:
                 reads = [None, [1], [3], [7], [8], [64], [2, 5, 11], [1, None], [4, 2, None], [-3, None], [-1, 2, -5],
@@ -493,6 +502,8 @@ def history(draw, max_len):
         else:
             x = {"op": "ul", "index": index, "sub": sub, "data": data,
                  "style": draw(st.sampled_from(styles_for(n)))}
+            if n > 1 and draw(st.integers(0, 3)) == 0:
+                x["ul_chunks"] = draw(st.lists(st.integers(1, 7), min_size=1, max_size=4))
             r = draw(st.sampled_from(["upload", "open", "open", "var_data"] if in_od else
                                      ["upload", "open", "open"]))
             x["route"] = r
